@@ -355,6 +355,9 @@ func classify(e interface{}) string {
 }
 
 func exec(c px.Context, op string, args []sx.Sexp) (res core.Result) {
+	if op == "tsadd" {
+		return execTsAdd(c, args)
+	}
 	if op != "hist" {
 		return core.Result{Out: "bad-op", Pred: "n/a"}
 	}
@@ -785,6 +788,7 @@ func observe(w *world, ref, exact *refState, names []nameT, at string, missed ma
 func nm(ns, name, a string) string { return fmt.Sprintf("(n %s %s %s)", ns, sx.Str(name), a) }
 
 func gen(g *core.G) {
+	genTsAdd(g)
 	// 1. exhaustive: all histories of length <= 3 (quick) / <= 4 (thorough) over a chain of three loaders,
 	//    the names {a, A, b} and the steps {load, def v1, def v2, has} × name + discover
 	var alphabet []string
